@@ -336,6 +336,7 @@ def property_anchor_files(prop: str) -> List[str]:
                      'panqec/decoders/sweepmatch/_sweep_match_decoder.py',
                      'panqec/decoders/sweepmatch/_rotated_sweep_match_decoder.py',
                      'panqec/decoders/belief_propagation/mbp_decoder.py'],
+             'C18': ['panqec/error_models/_pauli_error_model.py'],
              'C17': ['panqec/simulation/_base_simulation.py', 'panqec/simulation/_batch_simulation.py',
                      'panqec/analysis.py'],
              'C20': ['panqec/decoders/base/_base_decoder.py']}
